@@ -144,6 +144,7 @@ type c17Event struct {
 
 type c17Summary struct {
 	Leaf       int            `json:"leaf"`
+	DoIfOrder  int            `json:"doif_order_runs"` // executions of the family "do_if reads a field the plugin rewrites"
 	Stress     int            `json:"stress_runs"`     // executions of Do in the concurrent family
 	StressOut  int            `json:"stress_outcomes"` // distinct (config, event, outcome) records of them
 	StressMs   int            `json:"stress_ms_per_config"`
@@ -538,6 +539,7 @@ func TestVerifC17(t *testing.T) {
 
 	c17RunLeaves(w, sum, rng, thorough, extraFrac, replay)
 	c17RunEvents(w, sum, rng, thorough, replay)
+	c17RunDoIfOrder(w, sum, replay)
 	c17RunStress(w, sum, rng, thorough, replay)
 
 	w.closeCur()
@@ -1019,13 +1021,18 @@ func c17RunEvents(w *c17Writer, sum *c17Summary, rng *rand.Rand, thorough bool, 
 // (detection is probabilistic).
 
 func c17CondEq(field string, vals ...string) (map[string]any, c17Cond) {
+	return c17CondField("equal", field, vals...)
+}
+
+// c17CondField: op = equal | prefix | suffix | contains
+func c17CondField(op, field string, vals ...string) (map[string]any, c17Cond) {
 	vs := []any{}
-	c := c17Cond{Op: "equal", Field: strings.Split(field, "."), Vals: [][]int{}, Args: []c17Cond{}}
+	c := c17Cond{Op: op, Field: strings.Split(field, "."), Vals: [][]int{}, Args: []c17Cond{}}
 	for _, v := range vals {
 		vs = append(vs, v)
 		c.Vals = append(c.Vals, c17Ints([]byte(v)))
 	}
-	return map[string]any{"op": "equal", "field": field, "values": vs}, c
+	return map[string]any{"op": op, "field": field, "values": vs}, c
 }
 
 func c17CondLogic(op string, ms []map[string]any, cs []c17Cond) (map[string]any, c17Cond) {
@@ -1343,6 +1350,129 @@ func c17RunStress(w *c17Writer, sum *c17Summary, rng *rand.Rand, thorough bool, 
 			}
 			sum.Stress += oc.n
 			sum.StressOut++
+			w.put(&rec, info)
+		}
+	}
+}
+
+// ---------------------------------------------------------------- do_if reads a field the plugin itself rewrites
+
+// The decision of a mask's do_if belongs to the event as it arrived (mechanism M_DoIfOnOriginalEvent,
+// specs/MaskDoIf.tla).  Here the condition of a mask reads a field that an earlier mask, a later mask or the mask
+// itself rewrites, and the secrets sit before and after that field in document order: later key, nested object,
+// array.  One real instance, ordinary "E" records: the specification evaluates do_if on the leaves BEFORE Do.
+func c17RunDoIfOrder(w *c17Writer, sum *c17Summary, replay map[string]bool) {
+	mAst, mRep, mCut := c17Mode{name: "mask0"}, c17Mode{name: "replace", word: "XY"}, c17Mode{name: "cut", cut: true}
+	mk := func(re string, g []int, md c17Mode, doif map[string]any) Mask {
+		return Mask{Re: re, Groups: g, MaxCount: md.mc, ReplaceWord: md.word, CutValues: md.cut, DoIfCheckerMap: doif}
+	}
+	type cnd struct {
+		m map[string]any
+		d c17Cond
+	}
+	C := func(m map[string]any, d c17Cond) cnd { return cnd{m, d} }
+	not := func(c cnd) cnd { return C(c17CondLogic("not", []map[string]any{c.m}, []c17Cond{c.d})) }
+	conds := []cnd{
+		C(c17CondField("equal", "u", "ab")),        // destroyed by (a) and by (b)
+		C(c17CondField("prefix", "u", "a")),        // destroyed by (a)
+		C(c17CondField("suffix", "u", "b", "bé")),  // destroyed by (b)
+		C(c17CondField("contains", "o.u", "ab")),   // nested field
+		not(C(c17CondField("contains", "u", "*"))), // becomes false once (a) has written asterisks
+		not(C(c17CondField("suffix", "o.u", "Y"))), // becomes false once (b) has written the word
+		C(c17CondField("equal", "u", "ba", "bb")),  // a different set of events
+	}
+	var configs [][]c17StressMask
+	for _, c := range conds {
+		configs = append(configs,
+			// mask 1 rewrites what mask 2's do_if reads
+			[]c17StressMask{{mask: mk(`(a)`, []int{1}, mAst, nil), cond: []c17Cond{}},
+				{mask: mk(`(b)`, []int{1}, mRep, c.m), cond: []c17Cond{c.d}}},
+			// the guarded mask comes first: a later mask / the mask itself rewrites the field
+			[]c17StressMask{{mask: mk(`(b)`, []int{1}, mRep, c.m), cond: []c17Cond{c.d}},
+				{mask: mk(`(a)`, []int{1}, mAst, nil), cond: []c17Cond{}}},
+			// one mask whose do_if reads a field it rewrites itself
+			[]c17StressMask{{mask: mk(`(b)`, []int{1}, mRep, c.m), cond: []c17Cond{c.d}}},
+			[]c17StressMask{{mask: mk(`(a)(b)`, []int{1, 2}, mAst, c.m), cond: []c17Cond{c.d}}},
+			// both guarded
+			[]c17StressMask{{mask: mk(`a(b)`, []int{1}, mCut, c.m), cond: []c17Cond{c.d}},
+				{mask: mk(`(a)`, []int{0}, mRep, c.m), cond: []c17Cond{c.d}}},
+		)
+	}
+	docs := []string{
+		// the field read by do_if first, secrets after it (later key, nested object, array)
+		`{"u":"ab","m":"bab","o":{"u":"ab","c":"ab","d":["ba",{"e":"b"},"a"]},"z":"abé"}`,
+		// ... last, secrets before it
+		`{"m":"bab","o":{"c":"ab","d":["ba",{"e":"b"},"a"],"u":"ab"},"z":"abé","u":"ab"}`,
+		// ... in the middle
+		`{"m":"bab","u":"ab","o":{"c":"ab","u":"ab","d":["ba",{"e":"b"},"a"]},"z":"abé"}`,
+		// other values of the field
+		`{"u":"ba","m":"bab","o":{"u":"éb","c":"ab","d":["ba","b"]}}`,
+		`{"u":"bé","o":{"u":"b","d":[["ab"],"bb"]},"m":"ab"}`,
+		`{"o":{"d":["ab","ba"]},"m":"ab"}`,
+		`{"u":"bb","a":["ab",{"u":"ab","x":"ba"}],"o":{"u":"a"}}`,
+	}
+	root := insaneJSON.Spawn()
+	defer insaneJSON.Release(root)
+	for ci, sm := range configs {
+		if replay != nil {
+			any := false
+			for di := range docs {
+				any = any || replay[fmt.Sprintf("O|%d|%d", ci, di)]
+			}
+			if !any {
+				continue
+			}
+		}
+		conf := &Config{MaskAppliedField: "ap", MaskAppliedValue: "1"}
+		for i := range sm {
+			m := sm[i].mask
+			m.AppliedField, m.AppliedValue = "am"+strconv.Itoa(i), "1"
+			m.MetricName = "c17_mask_metric_" + strconv.Itoa(i)
+			conf.Masks = append(conf.Masks, m)
+		}
+		cb, _ := json.Marshal(conf.Masks)
+		sum.Configs++
+		p, rej := c17Start(conf)
+		if p == nil {
+			sum.Skipped++
+			sum.SkipWhy[rej]++
+			continue
+		}
+		descs := c17StressDescs(p, sm)
+		for di, doc := range docs {
+			key := fmt.Sprintf("O|%d|%d", ci, di)
+			if replay != nil && !replay[key] {
+				continue
+			}
+			if err := root.DecodeString(doc); err != nil {
+				panic(err)
+			}
+			rec := c17Event{K: "E", GProc: [][]string{}, GIgn: [][]string{}, Masks: descs, AF: "ap",
+				Before: c17StressBefore(p, sm, root), After: []c17FLeaf{}, MMet: []int{}, PB: []int{}}
+			info := c17Info{Key: key, Src: doc, Conf: string(cb), Fam: "doif-order"}
+			m0 := c17Met(p)
+			mm0 := make([]int, len(p.config.Masks))
+			for i := range mm0 {
+				mm0[i] = c17MaskMet(p, i)
+			}
+			pmsg, panicked := c17Do(p, &pipeline.Event{Root: root})
+			if panicked {
+				rec.Res, info.Pmsg = "panic", pmsg
+				rec.PC, rec.PB = c17PanicClass(pmsg)
+				sum.Panics++
+				p, _ = c17Start(conf)
+			} else {
+				rec.Res = "ok"
+				rec.After = c17Flatten(root.Node, []string{}, nil)
+				for li := range rec.After {
+					rec.After[li].MI = []c17MI{}
+				}
+				rec.Met = c17Met(p) - m0
+				for i := range mm0 {
+					rec.MMet = append(rec.MMet, c17MaskMet(p, i)-mm0[i])
+				}
+			}
+			sum.DoIfOrder++
 			w.put(&rec, info)
 		}
 	}
